@@ -267,7 +267,15 @@ pub fn final_quiescence(w: &Arc<World>, handles: &[Option<ObjH>]) {
         }
     }
     let waiting = attribute(w, None, "final quiescence: all gates open, all callers should be done", &rt::snapshot());
-    let (unfinished_callers, nviol) = w.with(|i| (i.callers.iter().filter(|c| c.stage != Stage::Done).count(), i.violations.len()));
+    // a call that was already in flight on an object when one of its operations panicked may wait forever: no property covers it
+    let (unfinished_callers, nviol) = w.with(|i| {
+        let on_panicked = |c: &CallerSt| match c.stage {
+            Stage::InCall(op) | Stage::Awaiting(op) | Stage::SyncWaiting(op) => i.objs[i.ops[op].obj].expect_panicked,
+            Stage::Dropping(o) => i.objs[o].expect_panicked,
+            _ => false,
+        };
+        (i.callers.iter().filter(|c| c.stage != Stage::Done && !on_panicked(c)).count(), i.violations.len())
+    });
     if nviol == 0 && (unfinished_callers > 0 || waiting > 0) {
         // something is stuck and no rule explains it: a defect of the harness, never of the library
         let stages: Vec<String> = w.with(|i| i.callers.iter().filter(|c| c.stage != Stage::Done).map(|c| format!("caller{}.{}@{}:{:?}", c.phase, c.idx, c.pos, c.stage)).collect());
@@ -320,7 +328,7 @@ pub fn after_drops(w: &Arc<World>) {
             if ob.expect_panicked {
                 continue;
             }
-            if level == Level::Desync && (!ob.dead || ob.drops != 1) {
+            if level == Level::Desync && (!ob.dead || ob.drops != 1) && !i.panic_case {
                 // who could still own it?
                 let pipe_holds = i.streams.iter().any(|s| s.is_pipe && s.pipe_obj == Some(o) && s.out_dropped && s.drops == 0);
                 let prop = if pipe_holds { "C16" } else { "C05" };
